@@ -121,6 +121,7 @@ class SysRun(object):
         self.histories = {}
         self.ref_mode = False
         self.ref_calls = []
+        self.shared_pool = False
 
     # -- gates -------------------------------------------------------------------
     def gate_wait(self, name):
@@ -273,7 +274,16 @@ class SysRun(object):
                 self.url = "unix+http://./" + "/sim/sock"
             else:
                 self.url = "http://sim:%d/" % self.server.server_address[1]
-        if sv.get("npool"):
+        if is_real_server(self.server):
+            run = self
+            # same behaviour, but the traceback of a dying connection is not printed
+            self.server.handle_error = lambda request, client_address: run.s.probe("server_handle_error")
+        if sv.get("npool") == "shared" and self.user_pool is not None:
+            # one pool for requests and notifications
+            self.npool = None
+            self.shared_pool = True
+            self.server.set_notification_pool(self.user_pool)
+        elif sv.get("npool") and sv.get("npool") != "shared":
             mx, mn = sv["npool"]
             self.npool = self.tp.ThreadPool(mx, mn, timeout=sv.get("pool_timeout", 4.0), logname="notifpool")
             self.npool.start()
@@ -357,6 +367,8 @@ class SysRun(object):
                 out = ["raw"] + self.raw_post(op[1])
             elif kind == "rawtrunc":
                 out = ["rawtrunc"] + self.raw_truncated(op[1], op[2])
+            elif kind == "abort":
+                out = ["abort", self.client_abort(op[1], op[2] if len(op) > 2 else "")]
             elif kind == "sleep":
                 s.sleep(op[1])
                 out = ["slept"]
@@ -427,6 +439,36 @@ class SysRun(object):
             return [int(st[1]) if len(st) > 1 and st[1].isdigit() else None, (msgs[0][2] or b"").decode("utf-8", "replace")]
         finally:
             sock.close()
+
+    def client_abort(self, mode, tok):
+        """A client that disappears at an awkward moment."""
+        import socket as _s
+
+        sm = simnet.module()
+        sv = self.p["server"]
+        if sv["kind"] == "dispatcher":
+            return "n/a"
+        if sv.get("family") == "unix":
+            sock = sm.socket(_s.AF_UNIX, _s.SOCK_STREAM)
+            sock.connect("/sim/sock")
+        else:
+            sock = sm.create_connection(("sim", self.server.server_address[1]))
+        self.s.fault("client_abort_" + mode)
+        try:
+            body = ('{"jsonrpc": "2.0", "method": "echo", "params": ["%s"], "id": 1}' % tok).encode()
+            head = ("POST / HTTP/1.0\r\nContent-Type: application/json-rpc\r\nContent-Length: %d\r\n\r\n" % len(body)).encode()
+            if mode == "connect-close":
+                pass
+            elif mode == "half-headers":
+                sock.sendall(head[:20])
+            elif mode == "no-read":
+                # the whole request, then gone without reading the reply
+                sock.sendall(head + body)
+            elif mode == "garbage":
+                sock.sendall(b"\x00\xff\x16\x03\x01 not http at all\r\n\r\n")
+        finally:
+            sock.close()
+        return mode
 
     def client_body(self, ci):
         proxy = self.make_proxy(ci)
@@ -509,6 +551,9 @@ class SysRun(object):
             self.wait_threads(clients)
             s.emit("clients.done")
             self.open_gates()
+            if self.shared_pool:
+                # notifications still queued in the shared pool would be discarded by server_close(): let them run first
+                s.emit("shared.joined", bool(self.user_pool.join(FAR)))
             if is_net:
                 if life == "serve":
                     self.lifecycle_op("shutdown", srv.shutdown)
@@ -580,6 +625,10 @@ class SysRun(object):
         finally:
             self.ref_mode = False
         s.emit("reference.done", len(self.ref))
+
+
+def is_real_server(obj):
+    return hasattr(obj, "serve_forever")
 
 
 def snapshot_config(cfg):
